@@ -66,12 +66,27 @@ def render(us, style, rng, record=None):
                 gap1 = rng.choice(["", "", " ", "\t"])
                 gap2 = rng.choice([" ", " ", "\t", "  "])
                 trail = rng.choice(["", "", " ", "\t", " \t "])
+            if style == "markers" and rng.random() < 0.5:
+                # a linemarker directly in front of the #pragma line (what a header that begins with a
+                # pragma looks like after cpp): a directive line ends at its newline, the next one is
+                # looked at afresh
+                n = rng.randrange(1, 900)
+                f = rng.choice(["a.h", "dir/b.c", "f.c"])
+                parts.append(rng.choice(['# %d "%s"\n', '#line %d "%s"\n', '# %d "%s" 1\n']) % (n, f))
+                state["line"], state["col"], state["file"] = n, 1, f
+                if rng.random() < 0.6:
+                    lead = ""
             c0 = state["col"] + len(lead) + 1 + len(gap1)
             if record is not None:
                 record.append(("pragma", state["line"], c0, state["file"]))
                 if val:
                     record.append((val, state["line"], c0 + 6 + len(gap2), state["file"]))
             put(lead + "#" + gap1 + "pragma" + (gap2 + val if val else "") + trail + "\n")
+            if style == "markers" and rng.random() < 0.4:       # ... and one directly after it
+                n = rng.randrange(1, 900)
+                f = rng.choice(["a.h", "dir/b.c", "f.c"])
+                parts.append('# %d "%s"\n' % (n, f))
+                state["line"], state["col"], state["file"] = n, 1, f
             continue
         if style == "samemarker":
             if state["col"] != 1:
